@@ -67,7 +67,7 @@ def random_cells(run, n):
 
 
 def paths(rdef, res, strict):
-    """the five ways a target can be matched; each → True/False/'raised:…'"""
+    """the ways a target can be matched (matcher, legacy flag, engine on a policy / a set / a set nested three deep, compiled); each → True/False/'raised:…'"""
     out = {}
     env_res = {"type": res["type"], "id": res["id"], "attrs": dict(res["attrs"] or {})}
 
@@ -82,7 +82,9 @@ def paths(rdef, res, strict):
     pol = {"algorithm": "deny-overrides", "rules": [rule]}
     req = {"sid": "u", "roles": [], "sattrs": {}, "action": "read", "rtype": res["type"], "rid": res["id"],
            "rattrs": res["attrs"], "ctx": {}}
-    for name, p in (("guard_single", pol), ("guard_set", {"algorithm": "deny-overrides", "policies": [{"rules": [rule]}]})):
+    nested = {"algorithm": "deny-overrides", "policies": [{"id": "outer", "policies": [{"id": "inner", "policies": [{"id": "leaf", "rules": [rule]}]}]}]}
+    for name, p in (("guard_single", pol), ("guard_set", {"algorithm": "deny-overrides", "policies": [{"rules": [rule]}]}),
+                    ("guard_set_nested", nested)):
         o = real.run_guard(p, req, {"strict": strict})
         out[name] = o["ok"]["allowed"] if "ok" in o else "raised:" + o["raised"]
     # the target under test as a deny next to a catch-all permit: a target that does not match must not hide the catch-all
